@@ -127,11 +127,8 @@ def run(seed, tier, lean) -> Result:
     for i in range(n):
         r = random.Random(rnd.getrandbits(48))
         spec = LangGen(r, knobs={'dup_assoc_names': 0.4}).gen()
-        g = Gen(r, spec, WEIGHTS)
-        ops = g.gen(r.randint(4, 30))[:-1]
-        # YAML/JSON-significant names, association extras
-        for o in ops:
-            if o['k'] == 'add_asset' and o['name'] in ('A', 'B') and r.random() < 0.5: o['name'] = r.choice(NAMES)
+        g = Gen(r, spec, WEIGHTS, names=NAMES)      # YAML/JSON-significant names are drawn inside the generator, so
+        ops = g.gen(r.randint(4, 30))[:-1]          # that its bookkeeping of accepted / rejected additions sees them
         cases.append((spec, ops, ['json', 'yml', 'yaml'][i % 3], r))
     model = None
     if lean['build_ok']:
